@@ -170,10 +170,10 @@ func (e *emitter) add(g Graph) {
 	}
 	e.seen[h] = true
 	lk := LinkGraph(&g)
-	var tags []string
+	tags := StructuralTags(&g)
 	poison := false
 	if lk.Accepted {
-		tags = Hazards(&g, lk)
+		tags = append(tags, Hazards(&g, lk)...)
 		has := func(t string) bool {
 			for _, x := range tags {
 				if x == t {
@@ -554,6 +554,34 @@ func famBare(e *emitter) {
 	}
 }
 
+// ---- family "reexport": triggers and templates a module imported from the host, imported from it -
+
+func famReexport(e *emitter) {
+	host := []HostImport{{From: "triggers", Item: ImpItem{Name: "minute", Other: "trigger"}}, {From: "templates", Item: ImpItem{Name: "FooFeature", Other: "templ"}}}
+	for _, hi := range host {
+		for importer := 0; importer < 2; importer++ {
+			for has := 0; has < 2; has++ {
+				for mix := 0; mix < 2; mix++ {
+					g := Graph{Order: []string{"f"}, Family: "reexport"}
+					g.Mods = []Mod{newMod("main", true), newMod("a", true), newMod("b", true, Item{Name: "f", Kind: "fn", Pub: true})}
+					g.Mods[0].Imports = []Import{{From: "a", Items: []ImpItem{{Name: "ea"}}}}
+					if has == 1 {
+						// b imported it from the host (has == 0: b has nothing of that name at all)
+						g.Mods[2].HostImports = []HostImport{hi}
+					}
+					items := []ImpItem{hi.Item}
+					if mix == 1 {
+						// (the parser accepts `trigger` only as the first element of a braced list)
+						items = []ImpItem{hi.Item, {Name: "eb"}, {Name: "f"}}
+					}
+					g.Mods[importer].Imports = append(g.Mods[importer].Imports, Import{From: "b", Items: items})
+					e.add(g)
+				}
+			}
+		}
+	}
+}
+
 // ---- family "sample": random graphs beyond the enumerated bounds ------------------------------
 
 func famSample(e *emitter, r *fw.Rng, count int) {
@@ -662,16 +690,21 @@ func famSample(e *emitter, r *fw.Rng, count int) {
 // Bound describes the enumerated (exhaustive) part of a tier in words.
 func Bound(tier string) string {
 	tri := "f in {none, pub fn, fn}, v in {none, pub let, let}"
-	e4 := "4 modules without self imports (2^12 edge subsets)"
+	e3 := "over 3 modules without self imports with one private global name shared by all modules"
+	e4 := "over 4 modules without self imports (2^12)"
 	if tier == "thorough" {
 		tri = "f and v each in {none, pub fn, fn, pub let, let}"
-		e4 = "4 modules without self imports (2^12 edge subsets) in both global-naming modes and both statement orders"
+		e3 = "over 3 modules including self imports also with reversed statement order and with one private global name shared by all modules"
+		e4 = "over 4 modules without self imports (2^12), also with reversed statement order and with one private global name shared by all modules"
 	}
-	return "pairs: entry + module a, a's names f and v each in {none, pub fn, fn, pub let, let} x type T in {none, pub, private}, entry's f in {none, pub fn, fn} x v in {none, pub let, let}, with and without the import edge; " +
-		"triples: entry (private f/v or none) + modules a, b with " + tri + ", every subset of the edges {main->a, main->b, a->b, b->a} and both statement orders in main; " +
-		"kinds: one probe import {fn f, let v, type T, missing value, missing type, value as type, type as value} against every shape of the target (25 x 3), importer = entry or a non-entry module, alone or next to a legal name, plus missing modules and re-exports; " +
-		"edges: every subset of import edges over 2 and 3 modules including self imports (2^4, 2^9) and over " + e4 + ", fixed shapes (edge function, private fn f in every module, private global); " +
-		"mangle: modules a / a_b (m / m_n) with items b_c / c (n_x1 / x1) of every kind pair and three import shapes; mut: writes through pub/imported globals (16 graphs)"
+	return "pairs: entry + module a; a's names f and v each in {none, pub fn, fn, pub let, let} x type T in {none, pub, private}; entry's f in {none, pub fn, fn} x v in {none, pub let, let}; with and without the import edge; direct calls and calls through function values. " +
+		"triples: entry (f in {none, fn} x v in {none, let}) + modules a, b with " + tri + "; every subset of the edges {main->a, main->b, a->b, b->a}; both statement orders in main. " +
+		"kinds: one probe import {f, v, type T, missing value, missing type, f as type, T as value, a builtin name} against every shape of the target (f, v each of 5 kinds x T of 3); importer = the entry or a non-entry module; alone or next to a legal name; plus missing modules (4 positions x 2 item kinds) and two re-export attempts. " +
+		"edges: every subset of import edges over 2 and 3 modules including self imports (2^4, 2^9), " + e3 + ", " + e4 + "; over 3 modules without self imports also with entry `app` importing a module called `main`, and with calls through function values; fixed shapes (edge function, private fn f in every module, private global). " +
+		"bare: entry + a, b where a and/or b declare no singleton, with and without a global, every subset of {main->a, main->b, a->b, b->a}. " +
+		"reexport: `import trigger minute` / `import templ FooFeature` from a user module that imported it from the host or has no such name; importer = entry or non-entry; alone or first in a braced list. " +
+		"leaks: a module uses fn/let/type x (pub or private) of another module without importing it: user = entry, sibling or imported module; with and without a third module importing it legally. " +
+		"mangle: modules a / a_b (m / m_n) with items b_c / c (n_x1 / x1) of every kind pair (pub/private fn/let) in three import shapes. mut: 14 graphs in which functions write through pub and imported globals"
 }
 
 func buildCases(tier string, seed uint64) []fw.Case {
@@ -681,6 +714,7 @@ func buildCases(tier string, seed uint64) []fw.Case {
 	famPairs(e, true)
 	famLeaks(e)
 	famBare(e)
+	famReexport(e)
 	famEdgesNamed(e, []string{"app", "main", "b"}, false, false, false, false)
 	famEdgesNamed(e, []string{"main", "a", "b"}, false, false, false, true)
 	famKinds(e)
